@@ -609,6 +609,11 @@ class Generator:
             return None
         rng = self.rng
         t = self.pick() if rng.random() < 0.6 else rng.choice(vs)
+        if not self.hazard_free and rng.random() < 0.6:
+            # hazard stream: prefer a source that still has unread selections alive (stale-alias finding R01)
+            hz = [w for w in vs if self.syn.exposed_by_write(w)]
+            if hz:
+                t = rng.choice(hz)
         if self.hazard_free:
             exp = self.syn.exposed_by_write(t)
             if exp:
@@ -748,6 +753,9 @@ class Generator:
 
     def generate(self):
         rng = self.rng
+        if not self.hazard_free:
+            for k in ("assign", "fill"):
+                self.P["weights"][k] = self.P["weights"].get(k, 1) * 3
         self.g_new()
         if rng.random() < 0.25:
             self.g_new()
